@@ -426,6 +426,7 @@ def oracle_c04(res, EL=None):
                 if len(here) != 1:
                     return f"not-delivered: request mid {mid} from {remote} at {t} delivered {len(here)} times"
                 epoch_start = t
+                first_type = f[2]
             else:
                 if here:
                     return (f"executed-twice: duplicate of mid {mid} from {remote} at {t} "
@@ -441,6 +442,12 @@ def oracle_c04(res, EL=None):
                                     f"{[o['raw'] for o in out_now]} instead of a repetition of {prior[-1]['raw']}")
                     elif out_now:
                         return f"dup-reply-early: duplicate CON mid {mid} at {t} answered although no ACK was sent yet"
+                    elif first_type == "CON" and t > epoch_start + cfg["emptyAckDelay"] and not shut:
+                        # by now the request must have been acknowledged one way or the other (piggy-backed response,
+                        # empty ACK of the timer or of a superseding request), so there is something to repeat
+                        return (f"dup-unanswered: duplicate CON mid {mid} at {t}, {t - epoch_start} ticks after the "
+                                f"first arrival, got no answer: no acknowledgement under that message ID was ever "
+                                f"sent to {remote}")
                 else:
                     if out_now:
                         return f"dup-non-output: duplicate NON mid {mid} at {t} produced output {[o['raw'] for o in out_now]}"
